@@ -6,6 +6,19 @@ and the block-cipher part of gm-sm4.
     python3 rs2lean.py <input.rs> <output.lean> [--namespace GmVerif.Gen.SrcSM3]
                        [--usize-overflow=unchecked|panic]        (default: unchecked)
                        [--only fn1,fn2,S::m,...]
+                       [--int-overflow=reject|panic]            (default: reject)
+                       [--extern <other.rs>=<Lean.Module>]
+
+`&local` of type `[T; N]` / `Vec<T>` is accepted as an argument for a `&[T]` parameter (unsize coercion; all three
+are `Array T`).
+
+`--extern lib.rs=GmVerif.Gen.SrcZUC`: the input belongs to the same crate as `lib.rs`, whose translation is the
+Lean module `GmVerif.Gen.SrcZUC`.  `lib.rs` goes through the same front end (so field types, signatures and the
+pure/effectful status of its fns are known exactly), and for every `use crate::X;` of the input that names a
+struct X of `lib.rs`, the type `X`, `X::assoc(..)`, `x.method(..)` and `x.field` refer to `<Lean.Module>.X..`.
+Nothing of `lib.rs` is emitted again; the output imports <Lean.Module> and its header records the sha256 of
+`lib.rs`, to be compared with the one in the header of <Lean.Module>.  Anything else of `lib.rs` (free fns,
+consts, structs not imported by `use crate::X;`, `impl X` in the input) stays unknown / is rejected.
 
 `--only` translates only the named `fn`s / methods (`S::m`) and the structs named or owning a named method
 (consts, statics, unit enums and `type R<T> = Result<T, E>;` aliases are always kept); every other fn /
@@ -68,6 +81,12 @@ EMBEDDING (shallow)
       `Rs.shl32` / `Rs.shr32` (k >= 32 panics: overflow-checks on; release Rust would mask k instead,
       so again a no-panic proof makes the result the release result).  Anything else is rejected.
       (`Rs.sub32`, `Rs.shl32`, `Rs.shr32` are emitted only into files that use them.)
+      With `--int-overflow=panic` plain `+ *` on u32/u64 and `-` on u64 are accepted with the overflow-checks-on
+      reading: `Rs.add32` / `Rs.mul32` / `Rs.add64` / `Rs.sub64` / `Rs.mul64` panic when the exact result does
+      not fit (u8 stays rejected).  u32 `a << k` / `a >> k` with a non-literal `k: usize`: `Rs.shl32u` /
+      `Rs.shr32u` (k >= 32 panics).  `v.as_slice()` is the value `v` (shared borrows are values).
+      `x.f.m(..)` for a `&mut self` method `m` and a local (or `self`) `x`: as for `x.m(..)`, the new receiver
+      is stored back with `x := { x with f := c.2 }`.
   struct S {..} -> a Lean `structure S` (deriving Repr, DecidableEq, Inhabited) with the same field names;
       `S { f: e, .. }` -> `({ f := e, .. } : S)`; `x.f` -> `x.f`; `x.f = e` -> `x := { x with f := e }`;
       `x.f[i] = e` -> `x := { x with f := (<- Rs.set x.f i e) }` (rhs, index, bounds check in Rust's order).
@@ -115,6 +134,8 @@ class Unsupported(Exception):
 SRC_NAME = '<input>'
 USIZE_CHECKED = False   # --usize-overflow=panic
 ONLY = None             # --only a,b,S::m : set of selected fn / struct names, or None (everything)
+INT_CHECKED = False     # --int-overflow=panic
+EXTERN_LEAN = {}        # extern struct name -> qualified Lean name (filled from --extern)
 
 def selected(name):
     return ONLY is None or name in ONLY
@@ -262,9 +283,17 @@ SKIP_CFGS = ('test', 'gm_rs_verif')
 HARMLESS_ATTRS = ('inline', 'derive', 'doc', 'allow', 'must_use', 'rustfmt', 'deny', 'warn')
 
 class Parser:
-    def __init__(self, toks):
+    def __init__(self, toks, extern_avail=()):
         self.t, self.p = toks, 0
         self.skipped = []
+        # structs of the --extern file that this file imports with `use crate::X;`
+        self.extern_structs = set()
+        for i in range(len(toks) - 4):
+            if toks[i].kind == 'ident' and toks[i].val == 'use' and toks[i + 1].kind == 'ident' and \
+                    toks[i + 1].val == 'crate' and toks[i + 2].val == '::' and toks[i + 3].kind == 'ident' and \
+                    toks[i + 4].kind == 'punct' and toks[i + 4].val == ';' and toks[i + 3].val in extern_avail and \
+                    (i == 0 or not (toks[i - 1].kind == 'punct' and toks[i - 1].val == ']')):
+                self.extern_structs.add(toks[i + 3].val)
         self.selfty = None
         # names of the `struct X { .. }` items of the file (a type may be used before its declaration)
         self.struct_names = set()
@@ -274,6 +303,9 @@ class Parser:
             if toks[i].kind == 'ident' and toks[i].val == 'struct' and toks[i + 1].kind == 'ident' \
                     and toks[i + 2].kind == 'punct' and toks[i + 2].val == '{' and struct_selected(toks[i + 1].val):
                 self.struct_names.add(toks[i + 1].val)
+        for n in sorted(self.extern_structs):
+            if n in self.struct_names: fail(1, 'struct `%s` both declared here and imported from the --extern file' % n)
+        self.struct_names |= self.extern_structs
 
     def peek(self, k=0): return self.t[self.p + k]
     def at(self, val, k=0):
@@ -382,11 +414,16 @@ class Parser:
             if self.at('('): self.skip_balanced('(', ')')
         x = self.peek()
         if self.at('use'):
-            self.skip_item(); self.skipped.append((line, '`use` declaration')); return None
+            ext = self.at('crate', 1) and self.at('::', 2) and self.peek(3).kind == 'ident' and \
+                self.peek(3).val in self.extern_structs and self.at(';', 4)
+            what = '`use crate::%s;` (resolved by --extern)' % self.peek(3).val if ext else '`use` declaration'
+            self.skip_item(); self.skipped.append((line, what)); return None
         if self.at('mod') and self.peek(1).kind == 'ident' and self.at(';', 2):
             self.next(); name = self.ident(); self.next()
             self.skipped.append((line, '`mod %s;` (another file)' % name)); return None
         if self.at('impl'):
+            if self.peek(1).kind == 'ident' and self.peek(1).val in self.extern_structs and self.at('{', 2):
+                fail(line, '`impl %s` of a struct that comes from the --extern file' % self.peek(1).val)
             if self.peek(1).kind == 'ident' and self.peek(1).val in self.struct_names and self.at('{', 2):
                 return self.parse_impl()
             desc = []
@@ -823,7 +860,7 @@ class Parser:
         fail(line, 'token `%s` in an expression' % x.val)
 
 BUILTIN_METHODS = ('wrapping_add', 'wrapping_sub', 'wrapping_mul', 'rotate_left', 'rotate_right', 'len',
-                   'to_vec', 'clone', 'unwrap', 'push', 'copy_from_slice', 'to_be_bytes', 'try_into')
+                   'to_vec', 'clone', 'unwrap', 'push', 'copy_from_slice', 'to_be_bytes', 'try_into', 'as_slice')
 
 # ----------------------------------------------------------------------------------------------
 # type checker (bidirectional, integer literals by unification)
@@ -843,9 +880,11 @@ class Local:
         self.rname, self.lname, self.ty, self.mut, self.kind = rname, lname, ty, mut, kind
 
 class Checker:
-    def __init__(self, items):
+    def __init__(self, items, extern=None):
         self.items = items
         self.consts, self.fns, self.enums, self.structs = {}, {}, {}, {}
+        if extern is not None:
+            self.structs.update(extern['structs']); self.fns.update(extern['fns'])
         flat = []
         for it in items:
             if it.kind == 'impl': flat += it.fns
@@ -1263,9 +1302,9 @@ class Checker:
             while r.kind == 'paren': r = r.e
             if r.kind != 'lit':
                 rt = resolve(self.expr(e.r, None))
-                if resolve(lt) != 'u32' or rt != 'u32':
+                if resolve(lt) != 'u32' or rt not in ('u32', 'usize'):
                     fail(e.line, 'shift of %s by a non-literal amount of type %s' % (tystr(lt), tystr(rt)))
-                e.amount = None
+                e.amount = None; e.amty = rt
             else:
                 e.amount = r.val
             e.opty = lt; e.ty = lt
@@ -1306,6 +1345,11 @@ class Checker:
                 return ('vec', elem_of(t, e.line, '`.to_vec()`'))
             if not (isinstance(t, tuple) or t in INT_TYPES or t == 'bool'): fail(e.line, '`.clone()` on %s' % tystr(t))
             return t
+        if n == 'as_slice':
+            if e.args: fail(e.line, '`.as_slice` arity')
+            t = resolve(self.expr(e.recv, None))
+            if not (isinstance(t, tuple) and t[0] in ('vec', 'array', 'slice')): fail(e.line, '`.as_slice()` on %s' % tystr(t))
+            return ('slice', t[1])
         if n == 'to_be_bytes':
             if e.args: fail(e.line, '`.to_be_bytes` arity')
             t = resolve(self.expr(e.recv, 'u32'))
@@ -1349,21 +1393,35 @@ class Checker:
             if fn.name not in self.cur.calls: self.cur.calls.append(fn.name)
         if len(e.args) != len(fn.params) - 1:
             fail(e.line, 'call of `%s` with %d arguments' % (fn.name, len(e.args)))
-        e.fn = fn; e.mutself = None
+        e.fn = fn; e.mutself = None; e.mutfield = None
         if fn.selfkind == 'mut':
-            if not (e.recv.kind == 'path' and len(e.recv.segs) == 1):
-                fail(e.line, 'call of the `&mut self` method `.%s` on something that is not a local' % n)
+            r = e.recv
+            if r.kind == 'field' and r.base.kind == 'path' and len(r.base.segs) == 1:
+                e.mutfield = r.name
+            elif not (r.kind == 'path' and len(r.segs) == 1):
+                fail(e.line, 'call of the `&mut self` method `.%s` on something that is not a local or `local.field`' % n)
             loc, _ = self.place(e.recv, '`&mut self` call')
             e.mutself = loc
         for a, prm in zip(e.args, fn.params[1:]):
             if prm.mutref: fail(a.line, '`&mut` argument of a method call')
-            self.expr(a, prm.pty)
+            self.arg(a, prm.pty)
         t = fn.ret
         if isinstance(t, tuple) and t[0] == 'result':
             fail(e.line, 'method returning `Result`')
         if t == 'unit' and not stmt:
             fail(e.line, 'unit method call used as a value')
         return t
+
+    def arg(self, a, pty):
+        """argument for a by-value / shared-borrow parameter; `&local` of type [T; N] / Vec<T> coerces to `&[T]`"""
+        p = resolve(pty)
+        if isinstance(p, tuple) and p[0] == 'slice' and a.kind == 'borrow' and not a.mut and \
+                a.e.kind == 'path' and len(a.e.segs) == 1:
+            t = resolve(self.expr(a.e, None))
+            if isinstance(t, tuple) and t[0] in ('array', 'vec'):
+                self.unify(t[1], p[1], a.line, 'argument'); a.ty = p
+                return p
+        return self.expr(a, pty)
 
     def call(self, e, expected, allow_result, stmt):
         p = e.path
@@ -1405,7 +1463,7 @@ class Checker:
                 self.unify(loc.ty, prm.pty, a.line, 'argument')
                 e.mutargs.append(loc)
             else:
-                self.expr(a, prm.pty)
+                self.arg(a, prm.pty)
         if e.mutargs and not (stmt and fn.ret == 'unit'):
             fail(e.line, 'call with `&mut` arguments that is not a statement of a unit function')
         t = fn.ret
@@ -1449,6 +1507,7 @@ def node_effect(n, effectful_fns):
         v = literal_value(n.r)
         return v is None or v == 0
     if k == 'bin' and n.op == '-' and resolve(n.opty) == 'usize': return True
+    if k == 'bin' and n.op in ('+', '*', '-') and resolve(n.opty) in ('u8', 'u32', 'u64'): return True
     if k == 'bin' and n.op in ('+', '*') and resolve(n.opty) == 'usize' and USIZE_CHECKED: return True
     if k == 'assign':
         if n.lhs.kind == 'index': return True
@@ -1457,6 +1516,7 @@ def node_effect(n, effectful_fns):
         if n.op == '-=' and resolve(n.lhs.ty) in ('usize', 'u32'): return True
         if n.op in ('<<=', '>>=') and getattr(n.bin, 'amount', 0) is None: return True
         if n.op in ('+=', '*=') and resolve(n.lhs.ty) == 'usize' and USIZE_CHECKED: return True
+        if n.op in ('+=', '*=', '-=') and resolve(n.lhs.ty) in ('u8', 'u32', 'u64'): return True
     return False
 
 def has_effect(n, effectful_fns):
@@ -1504,8 +1564,12 @@ def lean_ty(t):
         inner = lean_ty(t[1])
         return 'Array %s' % (inner if ' ' not in inner else '(%s)' % inner)
     if isinstance(t, tuple) and t[0] == 'struct':
-        return lname(t[1])
+        return EXTERN_LEAN[t[1]] if t[1] in EXTERN_LEAN else lname(t[1])
     raise Unsupported('internal: no Lean type for %s' % tystr(t))
+
+def fn_lean(fn):
+    """Lean name of a translated fn; fns of the --extern file are referred to by their qualified name"""
+    return getattr(fn, 'lean_name', None) or lname(fn.name)
 
 def paren_ty(s):
     return '(%s)' % s if ' ' in s else s
@@ -1583,7 +1647,7 @@ class Emitter:
             return '%s.%s' % (self.atom(self.expr(e.base)), lname(e.name))
         if k == 'structlit':
             return '({ %s } : %s)' % (', '.join('%s := %s' % (lname(n), self.expr(x))
-                                                  for n, x in zip(e.fnames, e.inits)), lname(e.name))
+                                                  for n, x in zip(e.fnames, e.inits)), lean_ty(('struct', e.name)))
         if k == 'vecnew':
             return '#[]'
         if k == 'if':
@@ -1625,7 +1689,7 @@ class Emitter:
         args = []
         for a, prm in zip(e.args, e.fn.params):
             args.append(self.atom(self.expr(a.e if prm.mutref else a)))
-        return ' '.join([lname(e.fn.name)] + args)
+        return ' '.join([fn_lean(e.fn)] + args)
 
     def binop(self, e):
         op = e.op
@@ -1639,6 +1703,7 @@ class Emitter:
         l = self.expr(e.l)
         if op in ('<<', '>>') and e.amount is None:
             h = 'shl32' if op == '<<' else 'shr32'
+            if getattr(e, 'amty', 'u32') == 'usize': h += 'u'
             self.helpers.add(h)
             return self.act('Rs.%s %s %s' % (h, self.atom(l), self.atom(self.expr(e.r))))
         if op in ('<<', '>>'):
@@ -1655,6 +1720,10 @@ class Emitter:
         if t == 'u32' and op == '-':
             self.helpers.add('sub32')
             return self.act('Rs.sub32 %s %s' % (self.atom(l), self.atom(r)))
+        if INT_CHECKED and t in ('u32', 'u64') and op in ('+', '-', '*'):
+            h = {'+': 'add', '-': 'sub', '*': 'mul'}[op] + str(BITS[t])
+            self.helpers.add(h)
+            return self.act('Rs.%s %s %s' % (h, self.atom(l), self.atom(r)))
         if t != 'usize':
             if op in ('+', '-', '*'):
                 fail(e.line, 'operator `%s` on %s (panics in debug, wraps in release; write wrapping_%s)'
@@ -1677,7 +1746,7 @@ class Emitter:
         fail(e.line, 'operator `%s`' % op)
 
     def methodcall(self, e):
-        return ' '.join([lname(e.fn.name), self.atom(self.expr(e.recv))] +
+        return ' '.join([fn_lean(e.fn), self.atom(self.expr(e.recv))] +
                         [self.atom(self.expr(a)) for a in e.args])
 
     def hoist(self, ind, exprs):
@@ -1706,10 +1775,16 @@ class Emitter:
         eff = m.fn.name in self.effectful
         self.out(ind, 'let %s %s %s' % (tmp, self.bind(eff), self.methodcall(m)))
         if m.fn.ret == 'unit':
-            self.out(ind, '%s := %s' % (v, tmp))
+            self.out(ind, self.writeback(m, v, tmp))
         else:
-            self.out(ind, '%s := %s.2' % (v, tmp))
+            self.out(ind, self.writeback(m, v, '%s.2' % tmp))
             m.hoisted = '%s.1' % tmp
+
+    def writeback(self, m, v, val):
+        """store the receiver returned by a `&mut self` call: into the local, or into `local.field`"""
+        if getattr(m, 'mutfield', None) is not None:
+            return '%s := { %s with %s := %s }' % (v, v, lname(m.mutfield), val)
+        return '%s := %s' % (v, val)
 
     def method(self, e):
         n = e.name
@@ -1736,7 +1811,7 @@ class Emitter:
             return '(GmVerif.rotl32 %s %s.toNat)' % (x, self.atom(self.expr(e.args[0])))
         if n == 'len':
             return '%s.size' % self.atom(self.expr(e.recv))
-        if n in ('to_vec', 'clone'):
+        if n in ('to_vec', 'clone', 'as_slice'):
             return self.expr(e.recv)
         if n == 'to_be_bytes':
             self.helpers.add('to_be_bytes32')
@@ -1886,13 +1961,13 @@ class Emitter:
                 # `x.m(..);` with `&mut self`: the returned value (if any) is discarded, `x` is updated
                 v = lname(e.mutself.lname)
                 eff = e.fn.name in self.effectful
-                if e.fn.ret == 'unit':
+                if e.fn.ret == 'unit' and getattr(e, 'mutfield', None) is None:
                     self.out(ind, '%s %s %s' % (v, self.bind(eff), self.methodcall(e)))
                 else:
                     self.tmpcount = getattr(self, 'tmpcount', 0) + 1
                     tmp = 'call_L%d_%d' % (e.line, self.tmpcount)
                     self.out(ind, 'let %s %s %s' % (tmp, self.bind(eff), self.methodcall(e)))
-                    self.out(ind, '%s := %s.2' % (v, tmp))
+                    self.out(ind, self.writeback(e, v, tmp if e.fn.ret == 'unit' else '%s.2' % tmp))
             elif e.kind == 'method' and e.name == 'push':
                 self.hoist(ind, e.args)
                 v = lname(e.recv.loc.lname)
@@ -1996,6 +2071,12 @@ PRELUDE_EXTRA = [
     ('shr32', '''\
 /-- u32 `a >> k` with a non-literal amount: `k >= 32` panics (as for `shl32`) -/
 @[inline] def shr32 (a k : UInt32) : Outcome UInt32 := if k < 32 then .ok (a >>> k) else .panic'''),
+    ('shl32u', '''\
+/-- u32 `a << k` with a non-literal `k: usize`: `k >= 32` panics (as for `shl32`) -/
+@[inline] def shl32u (a : UInt32) (k : Nat) : Outcome UInt32 := if k < 32 then .ok (a <<< k.toUInt32) else .panic'''),
+    ('shr32u', '''\
+/-- u32 `a >> k` with a non-literal `k: usize`: `k >= 32` panics (as for `shl32`) -/
+@[inline] def shr32u (a : UInt32) (k : Nat) : Outcome UInt32 := if k < 32 then .ok (a >>> k.toUInt32) else .panic'''),
     ('to_be_bytes32', '''\
 /-- `x.to_be_bytes()` on u32 -/
 @[inline] def to_be_bytes32 (x : UInt32) : Array UInt8 :=
@@ -2018,21 +2099,97 @@ PRELUDE_EXTRA = [
 /-- u32 `a - b`: underflow panics (overflow-checks on; when this never fires the result is also the
     release-mode result) -/
 @[inline] def sub32 (a b : UInt32) : Outcome UInt32 := if b ≤ a then .ok (a - b) else .panic'''),
+    ('add32', '''\
+/-- u32 `a + b` with `--int-overflow=panic`: a result that does not fit 32 bits panics (overflow-checks on;
+    when this never fires the result is also the release-mode result) -/
+@[inline] def add32 (a b : UInt32) : Outcome UInt32 :=
+  if a.toNat + b.toNat < 4294967296 then .ok (a + b) else .panic'''),
+    ('mul32', '''\
+/-- u32 `a * b` with `--int-overflow=panic` (as for `add32`) -/
+@[inline] def mul32 (a b : UInt32) : Outcome UInt32 :=
+  if a.toNat * b.toNat < 4294967296 then .ok (a * b) else .panic'''),
+    ('add64', '''\
+/-- u64 `a + b` with `--int-overflow=panic`: a result that does not fit 64 bits panics (as for `add32`) -/
+@[inline] def add64 (a b : UInt64) : Outcome UInt64 :=
+  if a.toNat + b.toNat < 18446744073709551616 then .ok (a + b) else .panic'''),
+    ('sub64', '''\
+/-- u64 `a - b` with `--int-overflow=panic`: underflow panics -/
+@[inline] def sub64 (a b : UInt64) : Outcome UInt64 := if b ≤ a then .ok (a - b) else .panic'''),
+    ('mul64', '''\
+/-- u64 `a * b` with `--int-overflow=panic` (as for `add64`) -/
+@[inline] def mul64 (a b : UInt64) : Outcome UInt64 :=
+  if a.toNat * b.toNat < 18446744073709551616 then .ok (a * b) else .panic'''),
 ]
 
-def translate(src, ns, srcname):
+def load_extern(path, module):
+    """--extern <file.rs>=<Lean.Module>: the structs of another, already translated file of the same crate and
+    their inherent impls.  The file goes through the same front end (parse, type check, effect analysis), so
+    the field types, the signatures and the pure/effectful status of its fns are those of the translation
+    that <Lean.Module> contains (its header carries the same sha256); nothing of it is emitted again."""
+    global SRC_NAME, ONLY, USIZE_CHECKED
+    with open(path, encoding='utf-8') as f:
+        src = f.read()
+    save = (SRC_NAME, ONLY, USIZE_CHECKED)
+    SRC_NAME, ONLY = path, None
+    try:
+        ps = Parser(lex(src))
+        items = ps.parse_file()
+        chk = Checker(items)
+        chk.check_all()
+        eff = []
+        for flag in (False, True):      # the status must not depend on the (unknown) flag of that translation
+            USIZE_CHECKED = flag
+            e = set()
+            for f in order_fns(chk.fns):
+                if has_effect(f.body, e) or f.errty is not None: e.add(f.name)
+            eff.append(e)
+    finally:
+        SRC_NAME, ONLY, USIZE_CHECKED = save
+    structs = {}
+    for it in items:
+        if it.kind == 'struct':
+            it.extern = True; structs[it.name] = it
+    fns = {}
+    for it in items:
+        if it.kind == 'impl':
+            for f in it.fns:
+                if (f.name in eff[0]) != (f.name in eff[1]):
+                    fail(f.line, 'extern fn `%s` whose pure/effectful status depends on --usize-overflow' % f.name)
+                f.extern = True; f.calls = []; f.lean_name = '%s.%s' % (module, lname(f.name))
+                fns[f.name] = f
+    return {'path': path, 'module': module, 'sha': hashlib.sha256(src.encode('utf-8')).hexdigest(),
+            'structs': structs, 'fns': fns, 'effectful': eff[0]}
+
+def translate(src, ns, srcname, extern=None):
     global SRC_NAME
     SRC_NAME = srcname
     toks = lex(src)
-    ps = Parser(toks)
+    ps = Parser(toks, extern_avail=set(extern['structs']) if extern else ())
     items = ps.parse_file()
     if ONLY is not None:
         missing = sorted(o for o in ONLY if o not in ps.seen)
         if missing: fail(1, '--only names an item that the file does not contain: %s' % ', '.join(missing))
-    chk = Checker(items)
+    ext = None
+    if extern:
+        # only what `use crate::X;` imports is visible: the struct X and the fns of `impl X`
+        vis = ps.extern_structs
+        ext = {'structs': {n: s for n, s in extern['structs'].items() if n in vis},
+               'fns': {n: f for n, f in extern['fns'].items() if f.owner in vis}}
+        for st in ext['structs'].values():
+            for _, fty in st.fields:
+                def chkty(t):
+                    if isinstance(t, tuple) and t[0] == 'struct' and t[1] not in vis:
+                        fail(st.line, 'extern struct `%s` has a field of the struct `%s`, which is not imported' % (st.name, t[1]))
+                    if isinstance(t, tuple):
+                        for x in t[1:]: chkty(x)
+                chkty(fty)
+        for n in vis: EXTERN_LEAN[n] = '%s.%s' % (extern['module'], lname(n))
+    chk = Checker(items, ext)
     chk.check_all()
     em = Emitter(chk, ns)
-    fns = order_fns(chk.fns)
+    if ext:
+        em.effectful |= set(n for n in ext['fns'] if n in extern['effectful'])
+    fns = [f for f in order_fns(chk.fns) if not getattr(f, 'extern', False)]
     for f in fns:                       # callees first, so one pass suffices
         if has_effect(f.body, em.effectful) or f.errty is not None:
             em.effectful.add(f.name)
@@ -2060,12 +2217,19 @@ def translate(src, ns, srcname):
     for it in items:
         if it.kind == 'enum':
             out.append('--   line %d: enum `%s` (only its variant names %s are used)' % (it.line, it.name, ', '.join(it.variants)))
+    if ext:
+        out.append('-- extern (--extern, imported, not translated again): %s from %s sha256 %s = %s' % (
+            ', '.join('struct `%s` + `impl %s`' % (n, n) for n in sorted(ext['structs'])) or 'nothing',
+            extern['path'].split('/')[-1], extern['sha'], extern['module']))
+    if INT_CHECKED:
+        out.append('-- u32/u64 `+` `-` `*`: --int-overflow=panic (Rs.add32 / Rs.add64 / ..: a result out of range panics)')
     if USIZE_CHECKED:
         out.append('-- usize `+` / `*`: --usize-overflow=panic (Rs.uadd / Rs.umul: a result >= 2^64 panics)')
     else:
         out.append('-- usize `+` / `*` sites translated as exact Nat operations (overflow not modelled): '
                    + (', '.join('line %d `%s`' % s for s in sorted(set(em.unchecked_sites))) or 'none'))
-    out += ['import GmVerif.Common', 'namespace %s' % ns, 'open GmVerif', '']
+    out += ['import GmVerif.Common'] + (['import %s' % extern['module']] if ext else [])
+    out += ['namespace %s' % ns, 'open GmVerif', '']
     out += PRELUDE.split('\n')
     if em.helpers:
         out += ['/-! ### run-time support used by this file only (fixed text, part of the translator) -/', 'namespace Rs']
@@ -2077,11 +2241,18 @@ def translate(src, ns, srcname):
     return '\n'.join(out)
 
 def main(argv):
-    global USIZE_CHECKED, ONLY
+    global USIZE_CHECKED, ONLY, INT_CHECKED
     args = [a for a in argv[1:] if not a.startswith('--')]
     ns = 'GmVerif.Gen.SrcSM3'
+    externspec = None
     for i, a in enumerate(argv):
         if a == '--namespace': ns = argv[i + 1]; args.remove(argv[i + 1])
+        elif a == '--extern':
+            externspec = argv[i + 1]; args.remove(argv[i + 1])
+            if externspec.count('=') != 1 or not re.match(r'^[A-Za-z_][A-Za-z0-9_.]*$', externspec.split('=')[1]):
+                sys.stderr.write('rs2lean: --extern wants <file.rs>=<Lean.Module>\n'); return 2
+        elif a == '--int-overflow=panic': INT_CHECKED = True
+        elif a == '--int-overflow=reject': INT_CHECKED = False
         elif a == '--only':
             ONLY = set(x for x in argv[i + 1].split(',') if x); args.remove(argv[i + 1])
         elif a == '--usize-overflow=panic': USIZE_CHECKED = True
@@ -2093,7 +2264,8 @@ def main(argv):
     with open(args[0], encoding='utf-8') as f:
         src = f.read()
     try:
-        text = translate(src, ns, args[0])
+        extern = load_extern(*externspec.split('=')) if externspec else None
+        text = translate(src, ns, args[0], extern)
     except Unsupported as e:
         sys.stderr.write('rs2lean: %s\n' % e)
         return 2
